@@ -128,6 +128,38 @@ def close_join(sc):
     return st
 
 
+def close_refill(sc):
+    """close() arrives while the supervisor is in the middle of replacing several recycled workers
+    (a slow on_process_up hook stretches the round): join() returns, no worker is left behind"""
+    n = 4
+    seen = set()
+    pool = bp.Pool(n, maxtasksperchild=1)
+    for w in pool._pool:
+        seen.add(w.pid)
+
+    def up(w):
+        seen.add(w.pid)
+        time.sleep(0.3)
+    pool.on_process_up = up
+    hs = [pool.apply_async(targets.slow, (i, 0.05)) for i in range(n)]
+    for h in hs:
+        h.wait(10)
+    first = set(seen)
+    t0 = time.time()
+    while time.time() - t0 < 10 * SCALE and len(seen) == len(first):
+        time.sleep(0.01)                  # the first replacement has been started
+    pool.close()
+    refused = pool.apply_async(targets.slow, (99,)) is None
+    ok, secs = _bounded(pool.join, 45)
+    for p in list(pool._pool):
+        seen.add(p.pid)
+    time.sleep(0.3)
+    wrong = sum(1 for i, h in enumerate(hs) if not h.ready() or h.get(0) != ('ok', i))
+    return {'kind': 'close_join', 'returned': ok, 'secs10': int(secs * 10), 'unresolved': 0, 'wrong': wrong,
+            'alive': _alive(seen), 'threads': _helper_threads(pool) if ok else -1, 'refused': refused,
+            'nworkers_seen': len(seen)}
+
+
 def terminate(sc):
     threads, procs, situation = sc['threads'], sc['procs'], sc['situation']
     log = tempfile.mktemp(prefix='verif-exitlog-', dir='/var/tmp')
@@ -206,7 +238,8 @@ def main():
     for sc in scen:
         t0 = time.monotonic()
         try:
-            st = close_join(sc) if sc['kind'] == 'close_join' else \
+            st = close_refill(sc) if sc['kind'] == 'close_join' and sc.get('refill') else \
+                close_join(sc) if sc['kind'] == 'close_join' else \
                 gc_path() if sc['kind'] == 'gc' else terminate(sc)
         except Exception as exc:      # noqa
             st = {'kind': sc['kind'], 'returned': False, 'secs10': 0, 'error': repr(exc), 'alive': -1,
